@@ -1,6 +1,7 @@
 package main
 
 import (
+	"runtime/pprof"
 	"encoding/json"
 	"fmt"
 	"os"
@@ -25,7 +26,13 @@ func main() {
 			fmt.Fprintln(os.Stderr, err)
 			os.Exit(2)
 		}
+		if pf := os.Getenv("GOSYM_CPUPROFILE"); pf != "" {
+			f, _ := os.Create(pf)
+			pprof.StartCPUProfile(f)
+			defer pprof.StopCPUProfile()
+		}
 		res := symx.RunJob(spec)
+		pprof.StopCPUProfile()
 		out := res.JSON()
 		if len(os.Args) > 3 {
 			os.WriteFile(os.Args[3], out, 0o644)
